@@ -58,7 +58,8 @@ pub fn gen_case(seed: u64, family: &str, tier: Tier) -> Case {
         q["model_name"] = json!(v.name);
         if v.kind != "ice" {
             let any = many_digits(&mut r, 0.0, 100.0);
-            q["starting_soc_percent"] = json!(*r.pick(&[100.0, 50.0, 5.0, 1.0, 0.0, any]));
+            // incl. the boundaries and charges so small that only "> 0" tells them from empty
+            q["starting_soc_percent"] = json!(*r.pick(&[100.0, 50.0, 5.0, 1.0, 0.0, any, 0.000000001, 0.0000001, 99.999999999]));
         }
         if r.chance(0.05) {
             q["starting_soc_percent"] = json!(*r.pick(&[-1.0, 100.5, 1000.0]));
